@@ -251,10 +251,13 @@ func (z *ZodMap[T, R]) PrefaultFunc(fn func() T) *ZodMap[T, R] {
 	return z.withInternals(in)
 }
 
-// Meta stores metadata for this map schema.
+// Meta returns a new schema with the given metadata stored in the global
+// registry; the receiver and its registry entry are unchanged.
 func (z *ZodMap[T, R]) Meta(meta core.GlobalMeta) *ZodMap[T, R] {
-	core.GlobalRegistry.Add(z, meta)
-	return z
+	in := z.internals.Clone()
+	clone := z.withInternals(in)
+	core.GlobalRegistry.Add(clone, meta)
+	return clone
 }
 
 // Describe registers a description in the global registry.
